@@ -255,6 +255,15 @@ func (v *Validators) SetNewValidators(candidates []*candidates.Candidate) {
 		})
 	}
 
+	// a validator that leaves the set outside a payout block still holds an accumulated reward;
+	// it goes to the total-slashed pool instead of vanishing with the record
+	for _, oldVal := range old {
+		if _, removed := oldValidatorsForRemove[oldVal.PubKey]; removed && oldVal.GetAccumReward().Sign() == 1 {
+			v.bus.App().AddTotalSlashed(oldVal.GetAccumReward())
+			oldVal.SetAccumReward(big.NewInt(0))
+		}
+	}
+
 	v.lock.Lock()
 	v.removed = oldValidatorsForRemove
 	v.lock.Unlock()
